@@ -93,6 +93,16 @@ CHECKS = {
    text="A baseline program in which every naming role occurs (let variable, nested pattern variable, match binder, function parameter, function name incl. fold target, alias in every type position, witness, parameter) is renamed, one role at a time (thorough: pairs of roles), with every identifier of a pool derived from all reserved words (suffix letter / digit / underscore, prefix, case flip) in every layout; plus alias inlining and one extra pair of parentheses around every sub-expression. Each variant must be accepted and compile to the baseline's CMR.",
    note="Renamings that would capture another name of the baseline (per R1) are skipped.",
    ref="§6-C17"),
+ "C19": dict(
+   technique="exhaustive comparison over a corpus x flags x in-process repeats x separately started processes under controlled hash seeds x the simc binary",
+   text="For every corpus text (all shipped examples, a stride of the term family, the static family, 20 rejected texts) and both debug flags: 12 in-process compilations on 4 threads, one worker process per hash seed of the stated seed set (std's RandomState keys are supplied through an LD_PRELOAD getrandom shim, so HashMap iteration orders are chosen by the harness and their diversity is measured), and simc / simc --debug under two seeds must all yield the byte-identical commit encoding and CMR; simc's stdout must be exactly `Program:\n<base64>\n` with exit 0, and it must exit non-zero with a message exactly when the library returns Err.",
+   note="The 2^128 seed space cannot be enumerated; the claim is exhaustiveness over the stated seed set with measured order diversity. simc is built from /repo with default features.",
+   ref="§6-C19"),
+ "C20": dict(
+   technique="bounded-exhaustive enumeration of rejected texts x line structures through the real error renderer, intrinsic oracle (message reader R7)",
+   text="Every rejected single-edit near miss of the C04 base programs in eight line structures (LF, CRLF, tabs, token per line, single line, block and non-ASCII line comments), with and without a trailing line terminator and with a leading non-ASCII comment line, and every rejected single-token edit of the kitchen-sink programs and shipped examples in LF and CRLF form: each `N | text` line of the message must quote source line N verbatim, the numbers must be consecutive and inside the file, and the message must end with a non-empty description.",
+   note="A line is a run between line feeds with one trailing CR removed. Messages that quote no line (location at end of file) are counted separately as vacuous.",
+   ref="§6-C20"),
 }
 
 NOT_BUILT_REASON = "check not built yet in this round (planned as bounded-exhaustive exploration, DESIGN.md §6); not claimed until it runs"
